@@ -14,6 +14,7 @@
 (* derivative).  Undef propagates; the machines never enable an action whose  *)
 (* result is Undef, the trace specs report such records as undecided.         *)
 EXTENDS Rat, Sequences, FiniteSets, TLC
+LOCAL INSTANCE SequencesExt
 
 Undef == [k |-> "u", n |-> 1, d |-> 1, x |-> <<>>, dx |-> <<>>]
 
@@ -194,9 +195,8 @@ Step(A, st, tok) ==
        IF IsU(v) THEN Bad
        ELSE Append(SubSeq(st, 1, Len(st) - Arity(tok[1])), v)
 
-RECURSIVE RunFrom(_, _, _, _)
-RunFrom(A, p, i, st) == IF i > Len(p) THEN st ELSE RunFrom(A, p, i + 1, Step(A, st, p[i]))
-
-\* the value of a complete program under assignment A (Undef if undecided / ill-formed)
-Eval(A, p) == LET st == RunFrom(A, p, 1, <<>>) IN IF Len(st) = 1 THEN st[1] ELSE Undef
+\* the value of a complete program under assignment A (Undef if undecided / ill-formed); FoldLeft of the
+\* community module SequencesExt is evaluated iteratively, so long returned expressions do not exhaust the stack
+Eval(A, p) == LET st == FoldLeft(LAMBDA acc, tok : Step(A, acc, tok), <<>>, p)
+              IN  IF Len(st) = 1 THEN st[1] ELSE Undef
 =============================================================================
